@@ -48,7 +48,7 @@ Lemma run_agree payload : forall prog A A' s s' n bs,
 Proof.
   induction prog as [|st prog IH]; intros A A' s s' n bs Hag Hcov.
   - cbn in *. inversion Hcov; subst. cbn. auto.
-  - destruct st as [p k|p w bits| |p|p elem|c p|c e entry reset]; cbn [run step]; cbn [covers_from] in Hcov.
+  - destruct st as [p k|p w bits| |p|p elem guarded|c p|c e entry reset]; cbn [run step]; cbn [covers_from] in Hcov.
     + destruct (dec_s k bs) as [[v r]|]; [|exact I].
       apply (IH _ _ _ _ _ _ (agree_set _ _ _ p (OScalar v) Hag) Hcov).
     + destruct (le_dec w bs) as [[m r]|]; [|exact I].
